@@ -53,6 +53,8 @@ def analyse(gen, incdirs, lang, user_headers):
             p, t = iface.f_interfaces(open(os.path.join(gen, f), errors="replace").read())
             procs.update(p)
             ftypes.update(t)
+    abstracts = {k[len("@abstract:"):]: v for k, v in procs.items() if k.startswith("@abstract:")}
+    procs = {k: v for k, v in procs.items() if not k.startswith("@abstract:")}
     labels = sorted(procs)
     prefix = common_prefix(labels)
     cfuncs, cstructs, ctypedefs = {}, {}, {}
@@ -163,6 +165,26 @@ def analyse(gen, incdirs, lang, user_headers):
                                  % (label, i + 1, " ".join(decl), a, "(%s)" % "".join(dims) if dims is not None else "", fc, ct, cn, cc)))
             elif sample is None and fc[0] not in ("val",):
                 sample = dict(label=label, position=i + 1, fortran=" ".join(decl) + " :: " + a, c=ct, fclass=fc, cclass=cc)
+            if ok and fc == ("funcptr",) and cc == ("funcptr",) and decl[0] == "procedure" and len(decl) > 2:
+                # the callback itself: the abstract interface of the procedure dummy against the C function-pointer type
+                ab = abstracts.get(decl[2].lower())
+                fp = iface.funcptr_params(ct)
+                if ab is not None and fp is not None:
+                    nargs += len(ab["args"])
+                    if len(ab["args"]) != len(fp[1]):
+                        problems.append(("callback-arity", "%s argument %d: abstract interface %s has %d dummy arguments, the C type '%s' has %d parameters"
+                                         % (label, i + 1, ab["name"], len(ab["args"]), ct, len(fp[1]))))
+                    else:
+                        for k, (aa, pt) in enumerate(zip(ab["args"], fp[1])):
+                            if aa not in ab["decls"]:
+                                continue
+                            d2, dm2 = ab["decls"][aa]
+                            fc2, cc2 = iface.classify_f(d2, dm2), iface.classify_c(pt, struct_names)
+                            ok2, _p = iface.compatible(fc2, cc2)
+                            if not ok2:
+                                problems.append(("callback-not-interoperable:%s-vs-%s" % (fc2[0], cc2[0]),
+                                                 "%s argument %d: parameter %d of the callback: Fortran '%s :: %s' (%s) is not interoperable with C '%s' (%s)"
+                                                 % (label, i + 1, k + 1, " ".join(d2), aa, fc2, pt, cc2)))
         # result
         if pr["kind"] == "function":
             rname = pr["result"]
@@ -393,6 +415,67 @@ def _gen_job(job):
     return out
 
 
+@st.composite
+def struct_library(draw):
+    """struct.rst: structs in the one-line form or as a declarations: list (struct.yaml Cstruct_ptr), members of
+    mixed scalar types; a member may carry options of its own (a language switched off for it): whatever is
+    switched off for a member, the bind(C) derived type must keep the layout of the C struct."""
+    lang = draw(st.sampled_from(["c", "c++"]))
+    decls, hdr = [], ["#ifndef STLIB_H", "#define STLIB_H"]
+    for k in range(draw(st.integers(1, 2))):
+        name = "Rec%d" % (k + 1)
+        fields = [(draw(st.sampled_from(["int", "double", "long", "float", "short", "char"])), "f%d" % i)
+                  for i in range(draw(st.integers(2, 5)))]
+        hdr.append("struct %s { %s };" % (name, " ".join("%s %s;" % f for f in fields)))
+        hdr.append("typedef struct %s %s;" % (name, name))
+        if draw(st.booleans()):
+            decls.append({"decl": "struct %s { %s };" % (name, " ".join("%s %s;" % f for f in fields))})
+        else:
+            members = []
+            for T, fn in fields:
+                m = {"decl": "%s %s" % (T, fn)}
+                o = draw(st.sampled_from([None, None, None, {"wrap_fortran": False}, {"wrap_python": False}, {"wrap_c": False, "wrap_fortran": False}]))
+                if o:
+                    m["options"] = o
+                members.append(m)
+            decls.append({"decl": "struct " + name, "declarations": members})
+        decls.append({"decl": "int use%s(%s *arg)" % (name, name)})
+        hdr.append("int use%s(%s *arg);" % (name, name))
+    # declarations.rst "Function Pointers": callbacks with C compatible parameters (named or abstract declarators)
+    for k in range(draw(st.integers(0, 2))):
+        cps = [draw(st.sampled_from(["int {n}", "double {n}", "void *{n}", "int *{n}", "const char *{n}", "long {n}", "void *"]))
+               .format(n="p%d" % j) for j in range(draw(st.integers(0, 3)))]
+        rt = draw(st.sampled_from(["void", "int", "double"]))
+        proto = "%s visit%d(%s (*cb)(%s), void *ctx)" % (draw(st.sampled_from(["void", "int"])), k, rt, ", ".join(cps))
+        decls.append({"decl": proto})
+        hdr.append(proto + ";")
+    hdr.append("#endif")
+    doc = {"library": "StLib", "language": lang, "cxx_header": "stlib.h", "options": {"wrap_python": False, "wrap_lua": False},
+           "declarations": decls}
+    import yaml
+    return lang, yaml.safe_dump(doc, sort_keys=False, width=1000), "\n".join(hdr) + "\n"
+
+
+def _struct_job(job):
+    idx, lang, ytext, header = job
+    work = tempfile.mkdtemp(prefix="vf04s_", dir=core.scratch_root())
+    out = dict(kind="struct", idx=idx, problems=[], ninterfaces=0, nargs=0, sample=None, case=dict(struct_lib=dict(lang=lang, yaml=ytext, header=header)))
+    try:
+        r = shroud_run.run_yaml(ytext, [], workdir=work, name="stlib")
+        if r.status != "ok":
+            out["problems"].append(("shroud-stops", "Shroud stops: " + r.describe()))
+            return out
+        gen = os.path.join(work, "out")
+        files0 = sorted(os.listdir(gen))
+        open(os.path.join(gen, "stlib.h"), "w").write(header)
+        out.update(analyse_dir(gen, files0, [gen], "c" if lang == "c" else "c++", [os.path.join(gen, "stlib.h")]))
+    except iface.IfaceError as e:
+        raise core.HarnessError(str(e))
+    finally:
+        shutil.rmtree(work, ignore_errors=True)
+    return out
+
+
 def analyse_dir(gen, files0, incdirs, lang, user_headers):
     # restrict to the generated files (the user's header was copied next to them)
     keep = set(files0)
@@ -483,6 +566,7 @@ def run(ctx):
                 # (std::vector with F_CFI: recorded finding of C05, excluded by construction)
                 jobs.append((len(jobs), xlib.without_vectors(lib)[0] if options else lib, options))
     results = core.pool_map(_gen_job, jobs)
+    results += core.pool_map(_struct_job, [(i,) + t for i, t in enumerate(smallgen.sample(struct_library(), ctx.seed + 31, 16 if quick else 200))])
     names = sorted(set(upstream.target_lists()["fortran"]))
     if quick:
         import random  # deterministic corpus subset from VERIF_SEED
@@ -532,6 +616,11 @@ def replay(ctx, rec):
             if cval != fval and "error" not in (cval, fval):
                 note = "%s: %s = %s in the generated C header but %s = %s in the generated Fortran module" % (text, cname, cval, fname, fval)
                 ctx.failure("enum-table:c-vs-fortran", c, observed=note, note=note)
+        return
+    if "struct_lib" in c:
+        out = _struct_job((0, c["struct_lib"]["lang"], c["struct_lib"]["yaml"], c["struct_lib"]["header"]))
+        for key, note in out["problems"]:
+            ctx.failure(key, c, observed=note, note=note)
         return
     out = _corpus_job(c["corpus"]) if "corpus" in c else _gen_job((0, c["lib"], c["options"]))
     for key, note in out["problems"]:
